@@ -3,11 +3,12 @@
 # quick checks, and undo it straight afterwards. Never leaves /repo modified.
 set -u
 patch=$(realpath $1); shift
-cd /verif
-if ! git -C /repo diff --quiet; then echo "/repo is dirty, refusing"; exit 2; fi
-git -C /repo apply "$patch" || { echo "patch does not apply"; exit 2; }
-EVBAK=$(mktemp -d); cp -r /verif/evidence/. $EVBAK/ 2>/dev/null
-trap 'git -C /repo apply -R "$patch" 2>/dev/null; git -C /repo checkout -- . ; git -C /repo clean -fdq -- . ; git -C /repo status --short; cp -r $EVBAK/. /verif/evidence/; rm -rf $EVBAK' EXIT
+cd "$(dirname "$0")/.."
+R="${VERIF_REPO:-/repo}"
+if ! git -C "$R" diff --quiet; then echo "/repo is dirty, refusing"; exit 2; fi
+git -C "$R" apply "$patch" || { echo "patch does not apply"; exit 2; }
+EVBAK=$(mktemp -d); cp -r evidence/. $EVBAK/ 2>/dev/null
+trap 'git -C "$R" apply -R "$patch" 2>/dev/null; git -C "$R" checkout -- . ; git -C "$R" clean -fdq -- . ; git -C "$R" status --short; cp -r $EVBAK/. evidence/; rm -rf $EVBAK' EXIT
 for p in "$@"; do
   echo "=== $p (${TIER:-quick}) with $patch"
   ./check "$p" "${TIER:-quick}" 2>&1 | grep -E "^VIOLATION|^KNOWN|mismatches=[1-9]|done in" | cut -c1-220
